@@ -12,6 +12,15 @@ use tiny_http::verif::MessagesQueue;
 use tiny_http_verif_rt as rt;
 use vcore::runner::{fail, Good, Verdict};
 
+/// timeout in ms; `u64::MAX` stands for `Duration::MAX` ("no limit, but let unblock() end the call")
+pub fn timeout_of(ms: u64) -> Duration {
+    if ms == u64::MAX {
+        Duration::MAX
+    } else {
+        Duration::from_millis(ms)
+    }
+}
+
 #[derive(Clone, Debug, Serialize, Deserialize, PartialEq, Eq)]
 pub enum RecvOp {
     Recv,
@@ -97,7 +106,7 @@ pub fn run_queue_case(prop: &'static str, case: &QueueCase) -> Verdict {
                     let t0 = rt::time::Instant::now();
                     let r = match &op {
                         RecvOp::Recv => q.pop(),
-                        RecvOp::RecvTimeout(ms) => q.pop_timeout(Duration::from_millis(*ms)),
+                        RecvOp::RecvTimeout(ms) => q.pop_timeout(timeout_of(*ms)),
                         RecvOp::TryRecv => q.try_pop(),
                     };
                     let elapsed = t0.elapsed();
@@ -297,11 +306,11 @@ pub fn run_queue_case(prop: &'static str, case: &QueueCase) -> Verdict {
             if *releasing {
                 continue;
             }
-            let t_ns = ms * 1_000_000;
+            let t_ns = ms.saturating_mul(1_000_000);
             if *el + 1_000_000 < t_ns {
                 return fail(format!("{}/queue/recv_timeout-too-early", prop), format!("recv_timeout({} ms) returned empty-handed after only {} ns of virtual time", ms, el));
             }
-            if timed_receivers == 1 && case.sleeps.is_empty() && *el > 2 * t_ns {
+            if timed_receivers == 1 && case.sleeps.is_empty() && *el > t_ns.saturating_mul(2) {
                 return fail(format!("{}/queue/recv_timeout-too-late", prop), format!("recv_timeout({} ms) returned empty-handed after {} ns of virtual time", ms, el));
             }
         }
@@ -326,7 +335,7 @@ pub fn run_queue_case(prop: &'static str, case: &QueueCase) -> Verdict {
 fn recv_op() -> BoxedStrategy<RecvOp> {
     prop_oneof![
         4 => Just(RecvOp::Recv),
-        2 => proptest::sample::select(vec![0u64, 5, 50]).prop_map(RecvOp::RecvTimeout),
+        2 => proptest::sample::select(vec![0u64, 5, 50, u64::MAX]).prop_map(RecvOp::RecvTimeout),
         2 => Just(RecvOp::TryRecv),
     ]
     .boxed()
@@ -416,7 +425,7 @@ pub fn seq_strategy() -> BoxedStrategy<SeqCase> {
             4 => Just(SeqOp::Push),
             3 => Just(SeqOp::Unblock),
             3 => Just(SeqOp::TryRecv),
-            2 => proptest::sample::select(vec![0u64, 1, 5, 20, 100]).prop_map(SeqOp::RecvTimeout),
+            2 => proptest::sample::select(vec![0u64, 1, 5, 20, 100, u64::MAX]).prop_map(SeqOp::RecvTimeout),
             3 => Just(SeqOp::Recv),
         ],
         1..40,
@@ -467,7 +476,12 @@ pub fn run_seq_case_for(prop: &'static str, case: &SeqCase) -> Verdict {
                     continue;
                 }
                 SeqOp::TryRecv => (q.try_pop(), "try_recv"),
-                SeqOp::RecvTimeout(ms) => (q.pop_timeout(Duration::from_millis(*ms)), "recv_timeout"),
+                SeqOp::RecvTimeout(ms) => {
+                    if *ms == u64::MAX && elems.is_empty() && tokens == 0 {
+                        continue; // without a limit it would block forever by design
+                    }
+                    (q.pop_timeout(timeout_of(*ms)), "recv_timeout")
+                }
                 SeqOp::Recv => {
                     if elems.is_empty() && tokens == 0 {
                         continue; // would block forever by design
@@ -510,7 +524,7 @@ pub fn run_seq_case_for(prop: &'static str, case: &SeqCase) -> Verdict {
                         if e + 1_000_000 < t_ns {
                             fail_with("recv_timeout-too-early", format!("op {}: recv_timeout({} ms) returned empty-handed after {} ns", i, ms, e));
                         }
-                        if e > 2 * t_ns {
+                        if e > t_ns.saturating_mul(2) {
                             fail_with("recv_timeout-too-late", format!("op {}: recv_timeout({} ms) returned empty-handed after {} ns", i, ms, e));
                         }
                     }
